@@ -24,7 +24,7 @@ def model_nodes(resp):
 def build_request(compiled, doc, extra=None, spec_path=None):
     q = astdump.dump_query(compiled)
     if q["rest"]:
-        raise core.Unencodable("compound")
+        return {"op": "q.compound", "first": q["first"], "rest": q["rest"], "doc": core.enc(doc), "extra": core.enc(extra or {})}
     req = {"op": "q.eval", "path": q["first"], "doc": core.enc(doc), "extra": core.enc(extra or {})}
     if spec_path is not None:
         req["spec_path"] = spec_path
